@@ -30,7 +30,7 @@ func (c02) Exhaustive(tier string) bool { return true }
 func (c02) Batches(tier string, seed uint64) []core.Batch {
 	b := spread("triples", 16, 0)
 	b = append(b, spread("sort", 8, tierN(tier, 40, 400))...)
-	return b
+	return append(b, conc(tierN(tier, 6, 40), "sort")...)
 }
 
 func (c02) Mandatory(tier string) []string {
@@ -115,6 +115,9 @@ func c02Pool(tier string, seed uint64) []model.Ver {
 }
 
 func (p c02) RunBatch(t *core.T, b core.Batch) {
+	if concDispatch(p, t, b) {
+		return
+	}
 	switch b.Name {
 	case "triples":
 		pool := c02Pool(t.Tier, t.Seed)
